@@ -18,7 +18,7 @@ func NewEngine(prog *ssa.Program, cfg *UnitCfg, solverTimeoutMs int) *Engine {
 		globals: map[*ssa.Global]int{}, strObjs: map[string]int{}, cfg: cfg, cases: map[string]int64{},
 		varRange: map[*Term][2]uint64{}, fnSeen: map[*ssa.Function]bool{}, initDone: map[*ssa.Package]bool{},
 		initWritten: map[int]bool{}, initFailed: map[*ssa.Package]string{}, inputDecls: map[string]*inputDecl{},
-		knownSeen: map[string]bool{}, openFindings: map[string]bool{}, mode: "main",
+		knownSeen: map[string]bool{}, openFindings: map[string]bool{}, mode: "main", siteIDs: map[string]int{}, rangeConds: map[*Term]*Term{}, live_: map[*ssa.Function]*liveInfo{},
 	}
 	e.initState = &State{heap: map[int]cell{}, id: 0}
 	e.solver = NewSolver(solverTimeoutMs)
@@ -73,6 +73,38 @@ func (e *Engine) mergeTwo(a, b *State) *State {
 	}
 	dA, dB := e.conj(a.pc[k:]), e.conj(b.pc[k:])
 	n := cloneState(a)
+	var ca, cb map[int]int
+	var own func(c *Term, va, vb Val) Val
+	own = func(c *Term, va, vb Val) Val {
+		switch x := va.(type) {
+		case SliceV:
+			if y, ok := vb.(SliceV); ok && x.obj != y.obj && x.obj != 0 && y.obj != 0 {
+				if ca == nil {
+					ca, cb = e.refCounts(a), e.refCounts(b)
+				}
+				if m, ok := e.tryCopyMerge(c, x, y, a, b, n, ca, cb); ok {
+					return m
+				}
+			}
+		case StructV:
+			if y, ok := vb.(StructV); ok && len(x.f) == len(y.f) {
+				r := StructV{f: make([]Val, len(x.f))}
+				for i := range x.f {
+					r.f[i] = own(c, x.f[i], y.f[i])
+				}
+				return r
+			}
+		case TupleV:
+			if y, ok := vb.(TupleV); ok && len(x) == len(y) {
+				r := make(TupleV, len(x))
+				for i := range x {
+					r[i] = own(c, x[i], y[i])
+				}
+				return r
+			}
+		}
+		return e.mergeVal(c, va, vb)
+	}
 	n.id = a.id
 	n.pc = append(append([]*Term(nil), a.pc[:k]...))
 	if d := e.b.Or(dA, dB); !d.IsTrue() {
@@ -86,7 +118,7 @@ func (e *Engine) mergeTwo(a, b *State) *State {
 			if !ok {
 				continue
 			}
-			nl[key] = e.mergeVal(dA, va, vb)
+			nl[key] = own(dA, va, vb)
 		}
 		n.frames[i].locals = nl
 		// stack allocs: union
@@ -108,12 +140,12 @@ func (e *Engine) mergeTwo(a, b *State) *State {
 			n.frames[i].defers[j] = nd
 		}
 	}
-	for id, cb := range b.heap {
-		ca, ok := a.heap[id]
+	for id, cellB := range b.heap {
+		cellA, ok := a.heap[id]
 		if !ok {
 			if base, ok2 := e.initState.heap[id]; ok2 {
 				// a kept the initial value, b modified it
-				m, ok3 := e.merge(dA, base.v, cb.v, true)
+				m, ok3 := e.merge(dA, base.v, cellB.v, true)
 				if !ok3 {
 					return nil
 				}
@@ -121,25 +153,33 @@ func (e *Engine) mergeTwo(a, b *State) *State {
 				n.heap[id] = cell{m, e.nstamp}
 				continue
 			}
-			n.heap[id] = cb
+			if _, gone := n.heap[id]; !gone {
+				n.heap[id] = cellB
+			}
 			continue
 		}
-		if ca.stamp == cb.stamp {
+		if cellA.stamp == cellB.stamp {
 			continue
 		}
-		m, ok := e.merge(dA, ca.v, cb.v, true)
-		if !ok {
-			return nil
+		var m Val
+		if _, isStruct := cellA.v.(StructV); isStruct {
+			m = own(dA, cellA.v, cellB.v)
+		} else {
+			var ok bool
+			m, ok = e.merge(dA, cellA.v, cellB.v, true)
+			if !ok {
+				return nil
+			}
 		}
 		e.nstamp++
 		n.heap[id] = cell{m, e.nstamp}
 	}
-	for id, ca := range a.heap {
+	for id, cellA := range a.heap {
 		if _, ok := b.heap[id]; ok {
 			continue
 		}
 		if base, ok2 := e.initState.heap[id]; ok2 {
-			m, ok3 := e.merge(dA, ca.v, base.v, true)
+			m, ok3 := e.merge(dA, cellA.v, base.v, true)
 			if !ok3 {
 				return nil
 			}
@@ -188,6 +228,11 @@ func (e *Engine) Explore(init *State) {
 					rest = append(rest, o)
 				}
 			}
+			if len(group) > 1 {
+				for _, g := range group {
+					e.pruneDead(g)
+				}
+			}
 			merged := []*State{group[0]}
 			for _, g := range group[1:] {
 				done := false
@@ -205,6 +250,9 @@ func (e *Engine) Explore(init *State) {
 			e.live = rest
 			for _, m := range merged {
 				m.atJoin = false
+				if e.loopWaveInfeasible(m) {
+					continue
+				}
 				e.runOne(m)
 			}
 			continue
@@ -832,4 +880,39 @@ func (e *Engine) funcsEncoded() []string {
 	}
 	sort.Strings(out)
 	return out
+}
+
+// loopWaveInfeasible: a (merged) state that re-enters a loop header for the k-th time (k >= 2) is checked for
+// feasibility once per wave; infeasible waves are dropped, which stops the lazy unrolling of loops whose real
+// trip count is small.
+func (e *Engine) loopWaveInfeasible(st *State) bool {
+	if e.inInit || len(st.frames) == 0 {
+		return false
+	}
+	f := st.frames[len(st.frames)-1]
+	if f.blk == nil {
+		return false
+	}
+	k, isHeader := f.iters[f.blk.Index]
+	if !isHeader || k < 2 {
+		return false
+	}
+	if e.cfg == nil || !e.cfg.LoopFeas {
+		return false
+	}
+	pc := e.conj(st.pc)
+	if pc.IsFalse() {
+		return true
+	}
+	if pc.IsTrue() {
+		return false
+	}
+	s2 := NewSolver(8000)
+	q := s2.Check(e.b, []*Term{pc}, "loop-feasibility")
+	e.feasQueries++
+	if os.Getenv("GOSMT_PROGRESS") != "" {
+		fmt.Fprintf(os.Stderr, "loop feasibility %s iter=%d: %s %.1fs nodes=%d\n", f.fn.Name(), k, q.Status, q.Secs, q.Nodes)
+	}
+	e.solver.Time += time.Duration(q.Secs * float64(time.Second))
+	return q.Status == "unsat"
 }
